@@ -236,8 +236,8 @@ func cRunCase(t *testing.T, c *cCase) (out []string) {
 		}
 		if v, ok := kv["user"]; ok && v != "none" {
 			cfg.User = string(cunhex(v))
-			cfg.Password = cunhex(kv["pass"])
 		}
+		cfg.Password = cunhex(kv["pass"])
 		if v, ok := kv["will"]; ok && v != "-" {
 			cfg.WillTopic = string(cunhex(v))
 			cfg.WillPayload = cunhex(kv["wmsg"])
